@@ -39,6 +39,20 @@
 // once, three more times after it got a new parent, i.e. the launcher is gone) and reads
 // os.Stdin; the supervisor waits until it has written stdio.<pid> or is dead, then applies the
 // unchanged liveness oracle (key daemon-died-after-Done:stdio@... when it is dead).
+// (n) names: 12 calls under handler names from the edges of what a name can be ("", " ", "a b",
+// "x=y", non-ASCII, 200 bytes, prefixes of each other, the values of ENV_DAEMON_FLAG, the
+// variable's own name) - concurrent, sequential, forced. (t) nested: the daemon of handler 0, after
+// Done(), calls Launch of handler 1 from inside (thorough also 1 -> 2), its environment still
+// carrying its own ENV_DAEMON_*; the nested call is observed by that daemon exactly as the caller
+// observes its calls and judged by the same post-conditions. (u) the caller has a stale
+// ENV_DAEMON_FLAG (and no ENV_DAEMON_NAME - Run() keys on the name) in its environment. (p) the
+// caller is started as ./prog in its directory, sub/prog from the parent directory, by bare name
+// through PATH, through a symlink, or by absolute path with another cwd.
+// A Launch that fails although no process ever ran its handler is decided, not left open: the
+// launcher is gone when Launch returns, so the handler can never run; the harness handlers always
+// reach Done() when run; unless the error is a resource refusal of the machine it is a
+// violation (handler-not-dispatched when the re-executed process itself reports that daemon.Run()
+// did not recognise it, launch-failed-daemon-never-started otherwise).
 // (g) slow daemons: the handler waits at a gate (file gate.open) between its marker and
 // predone/Done(); the supervisor keeps the gate closed for D = 8 (quick) / 8, 20, 45 s (thorough)
 // after the handler arrived there, then decides - before it creates gate.open - whether the
@@ -84,6 +98,31 @@ type Group struct {
 	// Stdio: after Done() every daemon writes to stderr/stdout (also through package log) and
 	// reads stdin, like a real daemon; then its usual duties (ping answer).
 	Stdio bool `json:"daemon_uses_stdio,omitempty"`
+	// Names "edge": the calls use handler names from the edges of what a name can be (roles.go).
+	Names string `json:"names,omitempty"`
+	// Nest n >= 2: the caller launches handler 0 only; handler i, after Done(), itself calls
+	// Launch of handler i+1 (i+1 < n) from inside the daemon, whose environment still carries the
+	// ENV_DAEMON_* variables of its own launch. len(Delays) == n.
+	Nest int `json:"nest,omitempty"`
+	// StaleFlag: the caller is started with ENV_DAEMON_FLAG=<this> in its environment and no
+	// ENV_DAEMON_NAME (Run() keys on the name only, so the caller is still a plain program).
+	StaleFlag string `json:"stale_env_daemon_flag,omitempty"`
+	// Start: how the caller is started - "" absolute path of the monitor binary; "rel-cwd"
+	// argv[0]=./prog with cwd = its directory; "rel-parent" argv[0]=sub/prog from the parent
+	// directory; "path" bare argv[0] found through PATH, cwd elsewhere; "symlink" absolute path of
+	// a symlink to the binary; "abs-othercwd" absolute path with a cwd that is neither "/" nor the
+	// binary's directory.
+	Start string `json:"start,omitempty"`
+}
+
+func (g Group) name(i int) string { return nameOf(g.Names, i) }
+
+// callerCalls: how many Launch calls the caller itself makes.
+func (g Group) callerCalls() int {
+	if g.Nest > 1 {
+		return len(g.Delays) - (g.Nest - 1)
+	}
+	return len(g.Delays)
 }
 
 func (g Group) kind(i int) string { return kindOf(g.Kinds, i) }
@@ -110,6 +149,7 @@ func (cs Case) shape() string {
 		if g.Stdio {
 			sb.WriteString(":stdio")
 		}
+		fmt.Fprintf(&sb, ":%s:n%d:%s:%s", g.Names, g.Nest, g.StaleFlag, g.Start)
 	}
 	return sb.String()
 }
@@ -196,8 +236,12 @@ func runCase(cs Case, c *drv.Ctx, root string) (vd verdict) {
 		os.MkdirAll(gr.dir, 0o755)
 	}
 	for _, gr := range runs {
-		cmd := exec.Command(self)
-		cmd.Env = append(cleanEnv(), envRole+"=caller", envDir+"="+gr.dir, envSeq+"="+cs.Id,
+		cmd, serr := startCmd(self, root, sdir, gr.g.Start)
+		if serr != nil {
+			gr.startErr = serr
+			break
+		}
+		cmd.Env = append(cmd.Env, envRole+"=caller", envDir+"="+gr.dir, envSeq+"="+cs.Id,
 			envDelays+"="+joinInts(gr.g.Delays), envSup+"="+strconv.Itoa(os.Getpid()))
 		if cs.GateSecs > 0 {
 			cmd.Env = append(cmd.Env, envCap+"="+strconv.Itoa(cs.GateSecs+int(launchWatchdog/time.Second)))
@@ -210,6 +254,15 @@ func runCase(cs Case, c *drv.Ctx, root string) (vd verdict) {
 		}
 		if gr.g.Stdio {
 			cmd.Env = append(cmd.Env, envStdio+"=1")
+		}
+		if gr.g.Names != "" {
+			cmd.Env = append(cmd.Env, envNames+"="+gr.g.Names)
+		}
+		if gr.g.Nest > 1 {
+			cmd.Env = append(cmd.Env, envNest+"="+strconv.Itoa(gr.g.Nest))
+		}
+		if gr.g.StaleFlag != "" {
+			cmd.Env = append(cmd.Env, "ENV_DAEMON_FLAG="+gr.g.StaleFlag) // no ENV_DAEMON_NAME: still a plain program
 		}
 		if gr.g.Procs > 0 {
 			cmd.Env = append(cmd.Env, "GOMAXPROCS="+strconv.Itoa(gr.g.Procs))
@@ -376,6 +429,78 @@ func gateWindow(cs Case, runs []*groupRun, c *drv.Ctx) verdict {
 	return verdict{}
 }
 
+// progCopy puts one copy of the monitor binary at <root>/bin/sub/daemonlaunch-prog (plus a symlink
+// <root>/bin/daemonlaunch-link) for the scenarios that start the caller in other ways than by
+// the absolute path of the monitor binary. One copy per shard process, removed with the root.
+func progCopy(self, root string) (dir, sub, prog, link string, err error) {
+	dir = filepath.Join(root, "bin")
+	sub = filepath.Join(dir, "sub")
+	prog = filepath.Join(sub, "daemonlaunch-prog")
+	link = filepath.Join(dir, "daemonlaunch-link")
+	if exists(prog) && exists(link) {
+		return
+	}
+	if err = os.MkdirAll(sub, 0o755); err != nil {
+		return
+	}
+	tmp := prog + ".tmp"
+	if os.Link(self, tmp) != nil {
+		var b []byte
+		if b, err = os.ReadFile(self); err != nil {
+			return
+		}
+		if err = os.WriteFile(tmp, b, 0o755); err != nil {
+			return
+		}
+	}
+	if err = os.Rename(tmp, prog); err != nil {
+		return
+	}
+	os.Remove(link)
+	err = os.Symlink(filepath.Join("sub", "daemonlaunch-prog"), link)
+	return
+}
+
+// startCmd prepares the caller command for a start mode (see Group.Start). Env is cleanEnv().
+func startCmd(self, root, sdir, mode string) (*exec.Cmd, error) {
+	env := cleanEnv()
+	if mode == "" {
+		cmd := exec.Command(self)
+		cmd.Env = env
+		return cmd, nil
+	}
+	dir, sub, prog, link, err := progCopy(self, root)
+	if err != nil {
+		return nil, err
+	}
+	cmd := &exec.Cmd{Path: prog, Env: env}
+	switch mode {
+	case "rel-cwd":
+		cmd.Args, cmd.Dir = []string{"./daemonlaunch-prog"}, sub
+	case "rel-parent":
+		cmd.Args, cmd.Dir = []string{"sub/daemonlaunch-prog"}, dir
+	case "path":
+		cmd.Args, cmd.Dir = []string{"daemonlaunch-prog"}, sdir
+		for i, e := range env {
+			if strings.HasPrefix(e, "PATH=") {
+				env[i] = "PATH=" + sub + ":" + strings.TrimPrefix(e, "PATH=")
+				sub = ""
+			}
+		}
+		if sub != "" {
+			env = append(env, "PATH="+sub)
+		}
+		cmd.Env = env
+	case "symlink":
+		cmd.Path, cmd.Args = link, []string{link}
+	case "abs-othercwd":
+		cmd.Path, cmd.Args, cmd.Dir = self, []string{self}, sdir
+	default:
+		return nil, fmt.Errorf("unknown start mode %q", mode)
+	}
+	return cmd, nil
+}
+
 // cleanup kills every process group of the scenario and every daemon that left a marker,
 // then waits until they are gone. Pids are recycled quickly on a busy machine, so nothing is
 // signalled unless it is proven to be ours: a process group is killed only while its leader
@@ -480,17 +605,37 @@ func schedOf(cs Case, gr *groupRun) string {
 	return cs.Sched + "/" + mode
 }
 
+func shortName(n string) string {
+	if len(n) > 40 {
+		return n[:40] + fmt.Sprintf("...(%d bytes)", len(n))
+	}
+	return n
+}
+
 func describe(cs Case, gr *groupRun, i int) string {
 	linger := ""
+	if gr.g.Nest > 1 {
+		if i >= gr.g.callerCalls() {
+			linger += fmt.Sprintf("; NESTED: called from inside the daemon of handler %q after its Done() (nesting depth %d of %d)", shortName(gr.g.name(i-1)), i+1, gr.g.Nest)
+		} else {
+			linger += fmt.Sprintf("; its daemon launches handler %q in turn (nesting depth %d)", shortName(gr.g.name(i+1)), gr.g.Nest)
+		}
+	}
+	if gr.g.StaleFlag != "" {
+		linger += fmt.Sprintf("; caller started with a stale ENV_DAEMON_FLAG=%s in its environment", gr.g.StaleFlag)
+	}
+	if gr.g.Start != "" {
+		linger += "; caller started as: " + gr.g.Start
+	}
 	if gr.g.LingerMs > 0 {
-		linger = fmt.Sprintf("; launcher process lingers %d ms between daemon.Run() and os.Exit(0)", gr.g.LingerMs)
+		linger += fmt.Sprintf("; launcher process lingers %d ms between daemon.Run() and os.Exit(0)", gr.g.LingerMs)
 	}
 	if len(gr.g.Steps) > 0 {
 		return fmt.Sprintf("Launch(%q) [call %d of a history of %d calls in one caller process: handler kinds %v (h healthy, x3/x0/p fail before Done()), issued in steps of %v concurrent calls, GOMAXPROCS=%d; schedule %s; this handler sleeps %d ms before Done()%s]",
-			handlerName(i), i+1, len(gr.g.Delays), gr.g.Kinds, gr.g.Steps, gr.g.Procs, schedOf(cs, gr), gr.g.Delays[i], linger)
+			shortName(gr.g.name(i)), i+1, len(gr.g.Delays), gr.g.Kinds, gr.g.Steps, gr.g.Procs, schedOf(cs, gr), gr.g.Delays[i], linger)
 	}
 	return fmt.Sprintf("Launch(%q) [call %d of %d concurrent in this caller, %d caller(s); schedule %s; handler sleeps %d ms before Done()%s]",
-		handlerName(i), i+1, len(gr.g.Delays), len(cs.Groups), schedOf(cs, gr), gr.g.Delays[i], linger)
+		shortName(gr.g.name(i)), i+1, len(gr.g.Delays), len(cs.Groups), schedOf(cs, gr), gr.g.Delays[i], linger)
 }
 
 // judgeHang: the caller did not exit within the watchdog. Only process state can turn that into
@@ -568,7 +713,7 @@ func judgeExited(cs Case, gr *groupRun, c *drv.Ctx) verdict {
 	n := len(gr.g.Delays)
 	sched := schedOf(cs, gr)
 	var rep CallerReport
-	if !readJSON(filepath.Join(gr.dir, "caller.out"), &rep) || len(rep.Calls) != n {
+	if !readJSON(filepath.Join(gr.dir, "caller.out"), &rep) || len(rep.Calls) != gr.g.callerCalls() {
 		eb, _ := os.ReadFile(filepath.Join(gr.dir, "caller.err"))
 		// The caller died before it could report. One cause is decidable from the markers: a
 		// handler process that was started as a direct child of the caller (its Done() then
@@ -579,7 +724,7 @@ func judgeExited(cs Case, gr *groupRun, c *drv.Ctx) verdict {
 			if m.Launcher == gr.pgid {
 				return verdict{key: "daemon-child-of-caller@" + sched,
 					expected: fmt.Sprintf("%s: the daemon is started by an intermediate launcher and is never a child of the caller %d", describe(cs, gr, m.Idx), gr.pgid),
-					observed: fmt.Sprintf("handler %s ran in process %d whose parent at start-up was the caller %d itself; the caller ended with %v before reporting", handlerName(m.Idx), m.Pid, gr.pgid, gr.waitErr)}
+					observed: fmt.Sprintf("handler %s ran in process %d whose parent at start-up was the caller %d itself; the caller ended with %v before reporting", fmt.Sprintf("%q", gr.g.name(m.Idx)), m.Pid, gr.pgid, gr.waitErr)}
 			}
 		}
 		return verdict{inconclusive: fmt.Sprintf("caller gave no report (wait: %v, stderr: %.300q)", gr.waitErr, eb)}
@@ -589,6 +734,27 @@ func judgeExited(cs Case, gr *groupRun, c *drv.Ctx) verdict {
 	}
 	if !rep.SigintDefault {
 		return verdict{inconclusive: "the caller could not establish the default SIGINT environment for its launchers: " + rep.SigintNote}
+	}
+	// nested calls: their reports are written by the daemons that made them (possibly after the
+	// caller exited). Wait for each, unless the daemon that has to make the call is gone or never
+	// got as far as a successful Done().
+	for k := gr.g.callerCalls(); k < n; k++ {
+		rf := filepath.Join(gr.dir, fmt.Sprintf("ret.%d", k))
+		prev := rep.Calls[k-1]
+		nesterUp := func() bool {
+			if prev.Missing || prev.Failed || prev.Marker == nil || prev.Marker.Pid != prev.Pid {
+				return false
+			}
+			st, same := sameProcess(prev.Pid, prev.Marker.Start)
+			return same && st.alive()
+		}
+		var cr CallReport
+		if waitFor(launchWatchdog, func() bool { return exists(rf) || !nesterUp() }) && readJSON(rf, &cr) {
+			c.Add("nested_launches", 1)
+			rep.Calls = append(rep.Calls, cr)
+		} else {
+			rep.Calls = append(rep.Calls, CallReport{Idx: k, Name: gr.g.name(k), Missing: true, CalledBy: prev.Pid})
+		}
 	}
 	// ---- the caller has exited (it was waited for) ----
 	// first look at /proc, then let every daemon prove that it still runs
@@ -691,6 +857,16 @@ func judgeExited(cs Case, gr *groupRun, c *drv.Ctx) verdict {
 			continue
 		}
 		what := describe(cs, gr, i)
+		if r.Missing {
+			// the daemon that had to make this nested call is judged by its own call (if it died,
+			// that is reported there); here nothing was observed
+			incon = append(incon, fmt.Sprintf("%s: no report of this nested call (its caller, daemon %d, is %s)", what, r.CalledBy, aliveWord(readStat(r.CalledBy).alive())))
+			continue
+		}
+		callerPid := rep.CallerPid
+		if r.CalledBy != 0 {
+			callerPid = r.CalledBy
+		}
 		if gr.g.kind(i) == kindGated {
 			if !r.GateOpen { // the caller's own observation at the moment Launch returned
 				return verdict{key: gateKey(cs), expected: what + " does not return while its handler waits at the closed gate, i.e. before it called Done()",
@@ -713,7 +889,7 @@ func judgeExited(cs Case, gr *groupRun, c *drv.Ctx) verdict {
 				premise, inDone = true, true
 			}
 		}
-		expOK := fmt.Sprintf("%s returns (pid of the process running handler %s, nil) only after that process called Done()", what, handlerName(i))
+		expOK := fmt.Sprintf("%s returns (pid of the process running handler %s, nil) only after that process called Done()", what, fmt.Sprintf("%q", gr.g.name(i)))
 		c.Add("launches", 1)
 		c.Add("launches."+sched, 1)
 		if gr.g.Forced {
@@ -752,7 +928,23 @@ func judgeExited(cs Case, gr *groupRun, c *drv.Ctx) verdict {
 				st, same := sameProcess(mi.Pid, mi.Start)
 				return verdict{key: "launch-error:" + normErr(r.Err) + "@" + sched, expected: expOK,
 					observed: fmt.Sprintf("Launch returned (%d, %q) although daemon %d (handler %s) wrote its marker, %s and is %s (state %s, parent %d)",
-						r.Pid, r.Err, mi.Pid, handlerName(i), doneWord(inDone), aliveWord(same && st.alive()), st.State, st.Ppid)}
+						r.Pid, r.Err, mi.Pid, fmt.Sprintf("%q", gr.g.name(i)), doneWord(inDone), aliveWord(same && st.alive()), st.State, st.Ppid)}
+			}
+			if !haveMi {
+				// No process ever ran the handler. Launch has returned, so its launcher is gone
+				// and none can start any more. The harness handlers always reach Done() when they
+				// are run: that this one never ran is decided inside glb, unless the machine
+				// refused a process.
+				for _, u := range unrecognised(gr.dir) {
+					if u.Name == gr.g.name(i) && u.Registered {
+						return verdict{key: "handler-not-dispatched:" + u.Flag + "@" + sched, expected: expOK + fmt.Sprintf("; a re-executed process with ENV_DAEMON_NAME=%q runs the launcher / the handler registered under that name", shortName(u.Name)),
+							observed: fmt.Sprintf("Launch returned (%d, %q); the re-executed process %d (ENV_DAEMON_NAME=%q ENV_DAEMON_FLAG=%q) was not recognised: daemon.Run() returned false although a handler is registered under that name in that process; no daemon was started", r.Pid, r.Err, u.Pid, shortName(u.Name), u.Flag)}
+					}
+				}
+				if !resourceError(r.Err) {
+					return verdict{key: "launch-failed-daemon-never-started:" + normErr(r.Err) + "@" + sched, expected: expOK + " (the handler calls Done() whenever it is run)",
+						observed: fmt.Sprintf("Launch returned (%d, %q); no process ever ran handler %q (no marker), although the caller itself was started the same way (%s) and runs", r.Pid, r.Err, shortName(gr.g.name(i)), startWord(gr.g.Start))}
+				}
 			}
 			incon = append(incon, fmt.Sprintf("%s failed with %q and no daemon of that handler returned from a successful Done() (marker=%v done=%+v): premise of the property not established", what, r.Err, haveMi, di))
 			continue
@@ -768,10 +960,10 @@ func judgeExited(cs Case, gr *groupRun, c *drv.Ctx) verdict {
 				if r.Pid == mi.Launcher {
 					rel = "the launcher's pid"
 				} else if m, ok := markers[r.Pid]; ok {
-					rel = fmt.Sprintf("the daemon of handler %s", handlerName(m.Idx))
+					rel = fmt.Sprintf("the daemon of handler %s", fmt.Sprintf("%q", gr.g.name(m.Idx)))
 				}
-				return verdict{key: "wrong-pid@" + sched, expected: expOK + fmt.Sprintf("; handler %s runs in process %d", handlerName(i), mi.Pid),
-					observed: fmt.Sprintf("Launch returned (%d, nil): %s (handler %s runs in %d, its launcher was %d)", r.Pid, rel, handlerName(i), mi.Pid, mi.Launcher)}
+				return verdict{key: "wrong-pid@" + sched, expected: expOK + fmt.Sprintf("; handler %s runs in process %d", fmt.Sprintf("%q", gr.g.name(i)), mi.Pid),
+					observed: fmt.Sprintf("Launch returned (%d, nil): %s (handler %s runs in %d, its launcher was %d)", r.Pid, rel, fmt.Sprintf("%q", gr.g.name(i)), mi.Pid, mi.Launcher)}
 			}
 			incon = append(incon, fmt.Sprintf("%s returned (%d, nil) but no process ever ran the handler: premise not established", what, r.Pid))
 			continue
@@ -781,13 +973,13 @@ func judgeExited(cs Case, gr *groupRun, c *drv.Ctx) verdict {
 				observed: fmt.Sprintf("Launch returned (%d, nil) but that process is %+v / %+v (scenario %s)", r.Pid, *r.Marker, *r.PreDone, cs.Id)}
 		}
 		m := *r.Marker
-		expRun := fmt.Sprintf("after %s returned (%d, nil) the daemon keeps running, the launcher %d is gone and the daemon is not a child of the caller %d", what, r.Pid, m.Launcher, rep.CallerPid)
+		expRun := fmt.Sprintf("after %s returned (%d, nil) the daemon keeps running, the launcher %d is gone and the daemon is not a child of the caller %d", what, r.Pid, m.Launcher, callerPid)
 		c.SetAdd("daemon_ppid_at_return", strconv.Itoa(r.Stat.Ppid))
 		c.SetAdd("daemon_state_at_return", r.Stat.State)
 		switch {
 		case !r.Stat.alive() || r.Stat.Start != m.Start:
 			return verdict{key: deadKeyAtReturn, expected: expRun, observed: fmt.Sprintf("/proc/%d/stat when Launch returned: %+v (daemon start time %d)%s", r.Pid, r.Stat, m.Start, fdsOf(r))}
-		case r.Stat.Ppid == rep.CallerPid:
+		case r.Stat.Ppid == callerPid:
 			return verdict{key: "daemon-child-of-caller@" + sched, expected: expRun, observed: fmt.Sprintf("daemon %d has parent %d = the caller when Launch returned", r.Pid, r.Stat.Ppid)}
 		case r.Stat.Ppid == m.Launcher || r.LauncherAlive:
 			return verdict{key: "launcher-alive-at-return@" + sched, expected: expRun, observed: fmt.Sprintf("when Launch returned: daemon %d parent %d, launcher %d exists=%v state=%s", r.Pid, r.Stat.Ppid, m.Launcher, r.LauncherAlive, r.LauncherState)}
@@ -805,7 +997,7 @@ func judgeExited(cs Case, gr *groupRun, c *drv.Ctx) verdict {
 			return verdict{key: deadKeyAfter, expected: expRun, observed: fmt.Sprintf("/proc/%d/stat after the caller exited: %+v (daemon start time %d)%s", r.Pid, a, m.Start, fdsOf(r))}
 		case a.Ppid == m.Launcher || launcherAfter[i]:
 			return verdict{key: "launcher-alive-after-caller-exit@" + sched, expected: expRun, observed: fmt.Sprintf("after the caller exited: daemon %d parent %d, launcher %d exists=%v", r.Pid, a.Ppid, m.Launcher, launcherAfter[i])}
-		case a.Ppid == rep.CallerPid:
+		case a.Ppid == callerPid:
 			return verdict{key: "daemon-child-of-caller@" + sched, expected: expRun, observed: fmt.Sprintf("daemon %d still has parent %d = the caller", r.Pid, a.Ppid)}
 		}
 		// liveness proof: the pong is caused by a ping created after the caller exited
@@ -842,6 +1034,42 @@ func judgeExited(cs Case, gr *groupRun, c *drv.Ctx) verdict {
 	return verdict{}
 }
 
+// Unrecognised is written by a re-executed harness process (ENV_DAEMON_NAME present) in which
+// daemon.Run() returned false, see main().
+type Unrecognised struct {
+	Pid        int    `json:"pid"`
+	Name       string `json:"name"`
+	Flag       string `json:"flag"`
+	Registered bool   `json:"registered"` // the harness registered a handler under Name in that process
+}
+
+func unrecognised(dir string) (out []Unrecognised) {
+	for _, f := range listPrefixed(dir, "unrecognised.") {
+		var u Unrecognised
+		if readJSON(f, &u) {
+			out = append(out, u)
+		}
+	}
+	return
+}
+
+// resourceError: the machine refused a process / memory / descriptors - not glb's doing.
+func resourceError(e string) bool {
+	for _, s := range []string{"resource temporarily unavailable", "cannot allocate memory", "too many open files", "no space left on device"} {
+		if strings.Contains(e, s) {
+			return true
+		}
+	}
+	return false
+}
+
+func startWord(mode string) string {
+	if mode == "" {
+		return "absolute path"
+	}
+	return mode
+}
+
 func doneWord(inDone bool) string {
 	if inDone {
 		return "called Done() with the launcher still its parent (Done() has not returned yet)"
@@ -863,7 +1091,7 @@ type mon struct{}
 func (mon) Name() string { return "daemonlaunch" }
 
 func (mon) Level(string) (string, string) {
-	return "exploration", "scenarios = caller processes calling daemon.Launch 1, 2 or 8 times concurrently; schedules: natural timing with the handler sleeping 0/5/200 ms before Done(); forced early Done() (launcher held by the verif pause hook right after cmd.Start() until every daemon of the caller returned from Done()); concurrent calls all natural, all forced, or one forced and one natural caller at the same time; all of these again with a launcher process that lingers 50/300 ms between daemon.Run() returning and os.Exit(0). histories of 6..12 calls in one caller process (sequential or in steps of 1-3 concurrent calls, GOMAXPROCS default or 1) in which handlers that fail before Done() (exit 3, exit 0, panic) are interleaved with healthy ones; daemons that, after Done(), write lines to stderr and stdout (also through package log, once at once and three times after the launcher is gone) and read stdin before their liveness is judged; slow daemons: the handler waits before Done() at a gate that the supervisor keeps closed for 8 s (quick) or 8/20/45 s (thorough) - Launch must not have returned (no ret file of the caller) at the moment the supervisor decides to open the gate, the seconds being exposure only. Other timings of the three processes are sampled by repetition only. distinct_nontrivial = distinct (schedule class, forced flag and delay vector per caller) shapes"
+	return "exploration", "scenarios = caller processes calling daemon.Launch 1, 2 or 8 times concurrently; schedules: natural timing with the handler sleeping 0/5/200 ms before Done(); forced early Done() (launcher held by the verif pause hook right after cmd.Start() until every daemon of the caller returned from Done()); concurrent calls all natural, all forced, or one forced and one natural caller at the same time; all of these again with a launcher process that lingers 50/300 ms between daemon.Run() returning and os.Exit(0). histories of 6..12 calls in one caller process (sequential or in steps of 1-3 concurrent calls, GOMAXPROCS default or 1) in which handlers that fail before Done() (exit 3, exit 0, panic) are interleaved with healthy ones; daemons that, after Done(), write lines to stderr and stdout (also through package log, once at once and three times after the launcher is gone) and read stdin before their liveness is judged; handler names from the edges (empty, blank, 'a b', 'x=y', non-ASCII, 200 bytes, prefixes of each other, the ENV_DAEMON_FLAG values); nested launches (a daemon, after Done(), launches the next handler from inside, depth 2 and in thorough 3, judged by the same post-conditions); callers with a stale ENV_DAEMON_FLAG in their environment; callers started by relative path from their own or the parent directory, by bare name through PATH, through a symlink, or with another working directory; slow daemons: the handler waits before Done() at a gate that the supervisor keeps closed for 8 s (quick) or 8/20/45 s (thorough) - Launch must not have returned (no ret file of the caller) at the moment the supervisor decides to open the gate, the seconds being exposure only. Other timings of the three processes are sampled by repetition only. distinct_nontrivial = distinct (schedule class, forced flag and delay vector per caller) shapes"
 }
 
 func (mon) Assumptions(string) []string {
@@ -872,6 +1100,8 @@ func (mon) Assumptions(string) []string {
 		"a handler that finds its launcher gone before it could call Done() does not call it (the signal would hit the reaper); Launch has then returned before Done(), which the caller's observation shows",
 		"orphans are re-parented to pid 1 or a sub-reaper; the oracle only demands parent not in {caller, launcher}",
 		"Launch calls of handlers that never reach Done() are outside the statement: their results are counted (error / (pid, nil) / foreign pid), not judged",
+		"all start modes of the caller (absolute, ./prog, sub/prog, bare name through PATH, symlink, other cwd) work on the unchanged library, none was left out; a caller with ENV_DAEMON_NAME in its environment is not a case: daemon.Run() keys on that variable alone and the documented 'if daemon.Run() { os.Exit(0) }' ends such a program at once",
+		"a Launch error for a handler that no process ever ran counts as a violation unless the error text is a resource refusal (EAGAIN, ENOMEM, EMFILE, ENOSPC): the harness handlers call Done() whenever they are run, and the launcher that could have started them is gone when Launch returns",
 		"callers run with SIGINT at its default disposition (an inherited SIG_IGN is reset before the first Launch)",
 	}
 }
@@ -894,6 +1124,47 @@ var classes = []string{
 	"h-seq", "h-seq-p1", "h-mix", "h-mix-p1",
 	// after Done() the daemon writes to stderr/stdout (also via package log) and reads stdin
 	"s-natural-1", "s-forced-1", "s-natural-8", "s-forced-8", "s-linger-2",
+	// handler names from the edges ("", " ", "a b", "x=y", non-ASCII, 200 bytes, prefixes of each
+	// other, the flag values, the variable's name): 12 calls, concurrent / sequential / forced
+	"n-conc", "n-seq", "n-forced",
+	// nested: the daemon of handler 0 launches handler 1 from inside (nest3: and that one handler 2)
+	"t-nest2-natural", "t-nest2-forced", "t-nest3-natural", "t-nest3-forced",
+	// the caller has a stale ENV_DAEMON_FLAG (isDaemon / isLauncher / junk) in its environment
+	"u-staleflag",
+	// how the caller is started: ./prog in its directory, sub/prog from the parent directory, bare
+	// name through PATH, through a symlink, absolute path with another cwd
+	"p-start-natural", "p-start-forced",
+}
+
+var startModes = []string{"rel-cwd", "rel-parent", "path", "symlink", "abs-othercwd"}
+var staleFlags = []string{"isDaemon", "isLauncher", "junk"}
+
+// runsFor: scenarios per class. The families added for names / nesting / environment / start
+// mode are deterministic in what they vary, a handful of runs covers their variants.
+func runsFor(class, tier string) (runs, parts int) {
+	runs, parts = 10, 1
+	if tier == "thorough" {
+		runs, parts = 300, 4
+	}
+	switch class[0] {
+	case 'n':
+		runs = 3
+	case 't':
+		if strings.Contains(class, "nest3") && tier != "thorough" {
+			return 0, 0
+		}
+		runs = 4
+	case 'u':
+		runs = 6
+	case 'p':
+		runs = len(startModes)
+	default:
+		return
+	}
+	if tier == "thorough" {
+		runs, parts = runs*20, 4
+	}
+	return
 }
 
 // slow daemons: the handler waits at a gate the supervisor keeps closed for D seconds. One
@@ -906,12 +1177,9 @@ var failKinds = []string{kindExit3, kindExit0, kindPanic}
 var lingerChoices = []int{50, 300}
 
 func (mon) Plan(prop, tier string, seed int64) []drv.Shard {
-	runs, parts := 10, 1
-	if tier == "thorough" {
-		runs, parts = 300, 4
-	}
 	var out []drv.Shard
 	for _, cl := range classes {
+		runs, parts := runsFor(cl, tier)
 		for p := 0; p < parts; p++ {
 			a, _ := json.Marshal(shardArgs{Class: cl, Part: p, Runs: runs / parts})
 			out = append(out, drv.Shard{Name: fmt.Sprintf("%s-p%d", cl, p), Args: a, Secs: 600})
@@ -943,6 +1211,41 @@ func genCase(class string, seed int64, part, run int) Case {
 	case "a", "b":
 		d, _ := strconv.Atoi(strings.TrimPrefix(f[1], "d"))
 		cs.Groups = []Group{{Forced: f[0] == "b", Delays: []int{d}}}
+	case "n":
+		g := Group{Names: "edge", Delays: make([]int, maxN), Forced: f[1] == "forced"}
+		for i := range g.Delays {
+			g.Delays[i] = delayChoices[r.Intn(2)]
+		}
+		if f[1] == "seq" {
+			for range g.Delays {
+				g.Steps = append(g.Steps, 1)
+			}
+		}
+		cs.Groups = []Group{g}
+	case "t":
+		depth := 2
+		if f[1] == "nest3" {
+			depth = 3
+		}
+		g := Group{Nest: depth, Delays: make([]int, depth), Forced: f[2] == "forced"}
+		for i := range g.Delays {
+			g.Delays[i] = delayChoices[r.Intn(len(delayChoices))]
+		}
+		cs.Groups = []Group{g}
+	case "u":
+		k := part*1000 + run
+		g := Group{StaleFlag: staleFlags[k%len(staleFlags)], Forced: (k/len(staleFlags))%2 == 1, Delays: []int{delayChoices[r.Intn(len(delayChoices))]}}
+		if r.Intn(2) == 0 {
+			g.Delays = append(g.Delays, delayChoices[r.Intn(len(delayChoices))])
+		}
+		cs.Groups = []Group{g}
+	case "p":
+		k := part*1000 + run
+		g := Group{Start: startModes[k%len(startModes)], Forced: f[2] == "forced", Delays: []int{delayChoices[r.Intn(len(delayChoices))]}}
+		if r.Intn(2) == 0 {
+			g.Delays = append(g.Delays, delayChoices[r.Intn(len(delayChoices))])
+		}
+		cs.Groups = []Group{g}
 	case "s":
 		n, _ := strconv.Atoi(f[2])
 		g := Group{Forced: f[1] == "forced", Delays: make([]int, n), Stdio: true}
@@ -1052,6 +1355,7 @@ func execCase(cs Case, c *drv.Ctx, root string) verdict {
 			return v
 		}
 		c.Add("scenario_retries", 1)
+		c.Note(cs.Id + ": inconclusive, retried: " + v.inconclusive)
 	}
 	return v
 }
@@ -1117,16 +1421,26 @@ func (mon) Finish(prop, tier string, mg *drv.Merged) (incon []string) {
 
 func main() {
 	// roles of glb's own protocol first: this binary is re-executed as launcher and as daemon
-	for i := 0; i < maxN; i++ {
-		i := i
-		daemon.Register(handlerName(i), func() { daemonMain(i) })
-	}
+	registerHandlers()
 	if daemon.Run() {
 		// a program may do some clean-up here; schedules d-* / e-* make the launcher do so
 		if os.Getenv("ENV_DAEMON_FLAG") == "isLauncher" {
 			if ms, _ := strconv.Atoi(os.Getenv(envLinger)); ms > 0 {
 				time.Sleep(time.Duration(ms) * time.Millisecond)
 			}
+		}
+		os.Exit(0)
+	}
+	if name, ok := os.LookupEnv("ENV_DAEMON_NAME"); ok {
+		// unreachable on the unchanged library (Run() returns true whenever the variable is
+		// set): a re-executed process that glb did not recognise as launcher or daemon. It must
+		// never act as caller or driver; it says what it saw and ends.
+		if dir := os.Getenv(envDir); dir != "" {
+			reg := false
+			for i := 0; i < maxN; i++ {
+				reg = reg || name == nameOf("", i) || name == nameOf("edge", i)
+			}
+			writeAtomic(dir, fmt.Sprintf("unrecognised.%d", os.Getpid()), Unrecognised{Pid: os.Getpid(), Name: name, Flag: os.Getenv("ENV_DAEMON_FLAG"), Registered: reg})
 		}
 		os.Exit(0)
 	}
